@@ -26,10 +26,11 @@ GENERATORS = []   # list of callables returning (relative file name, text)
 
 
 def _register():
-    from harness.srcgen import c05_enums, c07_dontcare, c12_digits
+    from harness.srcgen import c04_table, c05_enums, c07_dontcare, c12_digits
     GENERATORS.append(c12_digits.generate)
     GENERATORS.append(c05_enums.generate)
     GENERATORS.append(c07_dontcare.generate)
+    GENERATORS.append(c04_table.generate)
 
 
 
